@@ -40,11 +40,12 @@ func hexDigitValue(ch byte) int {
 
 // mustStayEscaped reports whether a code point decoded from an escape sequence
 // cannot be written raw into the (double-quoted) string the compiler emits:
-// the quote, the backslash, line terminators, and surrogate code units, which
-// have no UTF-8 encoding of their own.
+// the quote, the backslash, line terminators, surrogate code units, which have
+// no UTF-8 encoding of their own, and digits, which would become part of a `\0`
+// or legacy octal escape kept right before them ("\0\x31" is not "\01").
 func mustStayEscaped(codePoint int) bool {
 	return codePoint == '"' || codePoint == '\\' || codePoint == '\n' || codePoint == '\r' ||
-		(codePoint >= 0xD800 && codePoint <= 0xDFFF)
+		(codePoint >= 0xD800 && codePoint <= 0xDFFF) || (codePoint >= '0' && codePoint <= '9')
 }
 
 // encodeUTF8 converts a Unicode code point to UTF-8 byte sequence
